@@ -728,3 +728,162 @@ pub fn run_idt13(out: &mut Out, seed: u64, n: u64) {
         out.emit(Ev::new("iretq").w("sp", sp).w("flags", fl).str("k", k).w("rsp", rsp).w("rflags", flg).n("status", status as i64).n("nrecs", recs.len() as i64));
     }
 }
+
+// ------------------------------------------------------------------------------------------
+// Cross-structure scenario (Trace_Machine): GDT + TSS + IDT built through the API, handed to
+// the (emulated) CPU, raw memory read back from the addresses the CPU was given.
+
+pub fn run_machine(out: &mut Out, seed: u64, n: u64) {
+    use x86_64::instructions::tables::load_tss;
+    use x86_64::structures::gdt::{Descriptor, GlobalDescriptorTable, SegmentSelector};
+    use x86_64::structures::tss::TaskStateSegment;
+    let mut r = Rng::new(seed ^ 0x3ac1);
+    let lat = lattice_canon();
+    let scenarios = (n / 25).clamp(12, 400);
+    for sc in 0..scenarios {
+        // --- TSS with stacks
+        let tss: &'static mut TaskStateSegment = Box::leak(Box::new(TaskStateSegment::new()));
+        let mut ist = [0u64; 7];
+        let mut pst = [0u64; 3];
+        for (i, s) in ist.iter_mut().enumerate() {
+            *s = canon(if r.chance(1, 2) { 0xffff_9000_0000_0000 + 0x10_0000 * i as u64 + r.below(0x1000) } else { *r.pick(&lat) });
+            tss.interrupt_stack_table[i] = VirtAddr::new(*s);
+        }
+        for (i, s) in pst.iter_mut().enumerate() {
+            *s = canon(if r.chance(1, 2) { 0xffff_a000_0000_0000 + 0x10_0000 * i as u64 + 8 * r.below(64) } else { *r.pick(&lat) });
+            tss.privilege_stack_table[i] = VirtAddr::new(*s);
+        }
+        let tss: &'static TaskStateSegment = tss;
+        let tss_addr = tss as *const _ as u64;
+        // --- GDT: the five descriptors in a random order, sometimes with extra ones in between
+        let gdt: &'static mut GlobalDescriptorTable<12> = Box::leak(Box::new(GlobalDescriptorTable::empty()));
+        let mut order: Vec<u8> = vec![0, 1, 2, 3, 4];
+        for i in (1..order.len()).rev() {
+            order.swap(i, r.below(i as u64 + 1) as usize);
+        }
+        let (mut kcs, mut ucs, mut uds, mut ts) = (SegmentSelector(0), SegmentSelector(0), SegmentSelector(0), SegmentSelector(0));
+        let built = catch(|| {
+            for &d in &order {
+                match d {
+                    0 => kcs = gdt.append(Descriptor::kernel_code_segment()),
+                    1 => {
+                        gdt.append(Descriptor::kernel_data_segment());
+                    }
+                    2 => uds = gdt.append(Descriptor::user_data_segment()),
+                    3 => ucs = gdt.append(Descriptor::user_code_segment()),
+                    _ => ts = gdt.append(Descriptor::tss_segment(tss)),
+                }
+                if sc % 3 == 0 && d == 1 {
+                    gdt.append(Descriptor::kernel_data_segment());
+                }
+            }
+        })
+        .is_some();
+        let gdt: &'static GlobalDescriptorTable<12> = gdt;
+        // --- IDT
+        let idt: &'static mut Idt = Box::leak(Box::new(Idt::new()));
+        let named: [u8; 23] = [0, 1, 2, 3, 4, 5, 6, 7, 8, 10, 11, 12, 13, 14, 16, 17, 18, 19, 20, 21, 28, 29, 30];
+        let mut gates = String::from("[");
+        let mut used: Vec<u8> = Vec::new();
+        let ng = 4 + r.below(10);
+        let mut ok_all = built;
+        for _ in 0..ng {
+            let v = if r.chance(1, 2) { *r.pick(&named) } else { 32 + r.below(224) as u8 };
+            if used.contains(&v) {
+                continue;
+            }
+            used.push(v);
+            let handler = canon(if r.chance(1, 2) { 0xffff_ffff_8000_0000 + r.below(1 << 30) } else { *r.pick(&lat) });
+            let istx = if r.chance(1, 2) { 1 + r.below(7) } else { 0 };
+            let dpl = *r.pick(&[0u64, 0, 3, 3, 1]);
+            let trap = r.chance(1, 3);
+            let path = if v < 32 { 0 } else { 1 };
+            let done = catch(|| {
+                if let Some(o) = set_via(idt, path, v, VirtAddr::new(handler), 0, 0) {
+                    let o = unsafe { &mut *o };
+                    unsafe {
+                        o.set_code_selector(kcs);
+                        if istx > 0 {
+                            o.set_stack_index(istx as u16 - 1);
+                        }
+                    }
+                    o.set_privilege_level(pl(dpl));
+                    if trap {
+                        o.disable_interrupts(false);
+                    }
+                    true
+                } else {
+                    false
+                }
+            });
+            if done != Some(true) {
+                ok_all = false;
+            }
+            if gates.len() > 1 {
+                gates.push(',');
+            }
+            gates.push_str(&format!("{{\"v\":{},\"handler\":{},\"ist\":{},\"dpl\":{},\"trap\":{}}}", v, limbs(handler), istx, dpl, trap as u8));
+        }
+        gates.push(']');
+        let idt: &'static Idt = idt;
+        // --- hand the structures to the CPU
+        cpu::drain();
+        let loaded = catch(|| unsafe {
+            gdt.load_unsafe();
+            load_tss(ts);
+            idt.load_unsafe();
+        })
+        .is_some();
+        let ins = cpu::drain();
+        let find = |m: u64| ins.iter().find(|x| x.m == m);
+        let (gdt_base, gdt_limit) = find(cpu::M_LGDT).map(|x| (x.c, x.b)).unwrap_or((0, 0));
+        let (idt_base, idt_limit) = find(cpu::M_LIDT).map(|x| (x.c, x.b)).unwrap_or((0, 0));
+        let tr = find(cpu::M_LTR).map(|x| x.a).unwrap_or(0);
+        // --- read back what the CPU would read.  Only addresses inside the objects built above
+        // are dereferenced; anything else is logged as an empty image (and rejected).
+        let gdt_addr = gdt.entries().as_ptr() as u64;
+        let gdt_len = gdt.entries().len() as u64;
+        let gdt_words: Vec<u64> = if gdt_base == gdt_addr && gdt_limit < 8 * 12 { (0..(gdt_limit + 1) / 8).map(|i| unsafe { *((gdt_base + 8 * i) as *const u64) }).collect() } else { vec![] };
+        let idt_addr = idt as *const _ as u64;
+        let idt_words: Vec<u64> = if idt_base == idt_addr && idt_limit < 4096 { (0..(idt_limit + 1) / 8).map(|i| unsafe { *((idt_base + 8 * i) as *const u64) }).collect() } else { vec![] };
+        // the TSS base as the descriptor in the loaded GDT states it
+        let ti = (tr / 8) as usize;
+        let tss_base = if ti + 1 < gdt_words.len() {
+            let (lo, hi) = (gdt_words[ti], gdt_words[ti + 1]);
+            ((lo >> 16) & 0xff_ffff) | ((lo >> 56) << 24) | (hi << 32)
+        } else {
+            0
+        };
+        let tss_bytes: Vec<i64> = if tss_base == tss_addr { (0..104).map(|i| unsafe { *((tss_base + i) as *const u8) } as i64).collect() } else { vec![] };
+        out.emit(
+            Ev::new("machine")
+                .str("k", if ok_all && loaded { "ok" } else { "panic" })
+                .w("gdt_addr", gdt_addr)
+                .n("gdt_len", gdt_len as i64)
+                .w("gdt_base", gdt_base)
+                .n("gdt_limit", gdt_limit as i64)
+                .words("gdt", &gdt_words)
+                .w("idt_addr", idt_addr)
+                .w("idt_base", idt_base)
+                .n("idt_limit", idt_limit as i64)
+                .words("idt", &idt_words)
+                .n("tr", tr as i64)
+                .w("tss_addr", tss_addr)
+                .ints("tss", &tss_bytes)
+                .n("kcs", kcs.0 as i64)
+                .n("ucs", ucs.0 as i64)
+                .n("uds", uds.0 as i64)
+                .n("ts", ts.0 as i64)
+                .words("ist", &ist)
+                .words("pst", &pst)
+                .raw("gates", &gates)
+                .raw("instrs", &cpu::instrs_json(&ins)),
+        );
+        // the leaked objects are small; free them to keep long runs bounded
+        unsafe {
+            drop(Box::from_raw(idt as *const Idt as *mut Idt));
+            drop(Box::from_raw(gdt as *const GlobalDescriptorTable<12> as *mut GlobalDescriptorTable<12>));
+            drop(Box::from_raw(tss as *const TaskStateSegment as *mut TaskStateSegment));
+        }
+    }
+}
